@@ -8,16 +8,59 @@ object, before or after the header), `c.blobFault` (a blob decode throws, in a p
 inline); the consumer is an arbitrary client, so "stops after k reads and closes / destroys the
 Reader, with or without header()" is every k.
 
-What is ASSUMED, not proved (liveness): the OS scheduler is weakly fair (every thread with an
-enabled step eventually moves), the 10 ms timed wait of Queue::push returns, threads that
-returned are joinable; thread and fd LEAKS are observed by the monitors of tools/props/c07.py
-(/proc/self/task, /proc/self/fd), not proved.  The model covers the queue-fed path; a PBF file
-that the parser thread reads directly through the fd is covered by the monitors only.
+Liveness, what is PROVED: `no_stuck_state` in full (no invariant is a hypothesis any more);
+`bounded_progress` (ranking function); `api_call_returns_or_spins` (every maximal run without
+further API calls reaches a state in which the call has returned after at most `rank` steps that
+are not busy-wait iterations, OR it ends in an endless busy wait); `busy_wait_never_forced` (in
+every state with a call in progress a non-busy-wait step is enabled at once or after one
+busy-wait step), `busy_wait_keeps_progress` (a busy-wait step never disables progress),
+`busy_wait_is_not_a_choice` (a thread never chooses between a busy-wait step and another step);
+from these `api_call_returns_thread_fair`: TERMINATION under weak fairness of the scheduler towards
+every thread; `destructor_joins_all`, `after_destructor_only_pool_jobs`.
+
+What is ASSUMED, not proved — exactly ONE hypothesis about runs, `Sched.ThreadFair`: a thread that
+has an enabled internal step at every position from some position on eventually takes a step
+(textbook weak fairness of the OS scheduler; since the end of the 10 ms timed wait of
+Queue::push() is a step of the waiting thread, it includes "the timed wait returns").
+(`api_call_returns_weak_fair` and `api_call_returns` are the same conclusion from the intermediate
+hypotheses `Sched.WeakFair` — weak fairness for the set of non-busy-wait steps and for the two
+timed-wait-end events — and `Term.Fair` — busy-wait iterations do not repeat for ever.)
+Outside the model: `std::thread::join` returns once the thread function has returned, mutex /
+condition variable / future semantics as in Model/Mon.lean; thread and fd LEAKS are observed by the
+monitors of tools/props/c07.py (/proc/self/task, /proc/self/fd), not proved; the pool is abstracted
+to a FIFO work list (C19 proves the pool), and a blob job that is still queued when the Reader is
+destructed is run later by the pool (`after_destructor_only_pool_jobs`).
+
+NOT MODELLED: a PBF FILE (not a memory buffer) is read by the parser thread directly through the fd
+(reader.hpp: `DummyDecompressor`, `fd_for_parser`; pbf_input_format.hpp: `read_exactly(m_fd, …)`).
+On that path the read thread still runs but its decompressor returns "" at once, so it pushes only
+the end marker and returns; the parser never pops the input queue (the marker is drained by the
+`~queue_wrapper` shutdown), it reads blob after blob from the fd, stops when
+`output_queue_in_use()` is false (fix e0f0db9; this test IS in the model: third disjunct of
+`pRunEnd`) and closes the fd on every exit path (fix ba026d4: `close_fd()` at the end of run() and
+in `~PBFParser`).  In terms of this model it is the SAME step function with `chunkEnd = []` (the
+read thread then does exactly rTestDone / rRead eod / rCloseDec / push eod) started in a state
+with `avail = file.length`, `inputDone = true` — a state that is NOT reachable from `init`
+(`inputDone` only becomes true by popping the end marker or seeing the input queue shut down), and
+every theorem here is an induction from `init`; a `Cfg` flag would change `machine.init`, i.e. the
+base case of all ~150 invariants, and those that tie `avail` to `chunkEnd` (`ShapeIn.invP/invD`,
+`in_complete`, `Cfg.WF.chunk_last`) would need a second version — not done.  Expected to hold
+(not proved): its wait-for graph is a subgraph of the modelled one — the parser's waits on the
+read thread (`popWait`, `got`) never occur, the read thread makes one push on an empty queue, every
+other wait is a transition of this model — and its consumer-visible runs are runs of the modelled
+configuration `chunkEnd = [file.length]` with the read thread's steps moved to the front.  What
+covers it: the file-input scenarios of tools/props/c07.py (20 s watchdog, thread count, fd count
+before/after, file offset at close() vs at the end) incl. the two regression probes; a blocking
+read(2) on the fd (pipe from a `curl` child) is outside any model here.
 -/
 import Osmium.Lemmas.PipelineBase
 import Osmium.Lemmas.PipelineComplete
 import Osmium.Lemmas.PipelineLive
 import Osmium.Lemmas.PipelineRank
+import Osmium.Lemmas.PipelineTerm
+import Osmium.Lemmas.PipelineProg
+import Osmium.Lemmas.PipelineFair
+import Osmium.Lemmas.PipelineFairT
 
 namespace Osmium.C07
 
@@ -112,39 +155,36 @@ theorem read_thread_never_blocks (c : Cfg α) (s : State α) (h : (P c).Reachabl
 
 /-- The parser thread has an enabled step unless it is in one of three genuine wait states
     (blocked in wait_and_pop on the input queue, waiting for a future of the input queue, waiting
-    for room in the pool's work queue) — under the data invariant `RunData` and the typing of the
-    queues `Typed` (hypotheses; both are consequences of the order invariants of C05 for
-    well-formed configurations, not proved here). -/
-theorem parser_enabled_or_waiting (c : Cfg α) (s : State α) (h : (P c).Reachable s)
-    (hd : Live.RunData c s) (hty : Live.Typed s) (hp : s.ppc ≠ .done) :
+    for room in the pool's work queue). -/
+theorem parser_enabled_or_waiting (c : Cfg α) (wf : c.WF) (s : State α) (h : (P c).Reachable s)
+    (hp : s.ppc ≠ .done) :
     (∃ e s', Ev.isCall e = false ∧ (P c).Step s e s') ∨ Live.ParserWaiting c s :=
-  Live.parser_enabled_or_waiting c s h hd hty hp
+  Live.parser_enabled_or_waiting c s h (Live.run_data c wf s h) (Live.typed c s h) hp
 
-/-- `no_stuck_state`, `_partial`: while an API call (header, read, close, destructor) is in
-    progress some internal step of the pipeline is enabled — for every fault, stop point, queue
-    bound, pool size, with or without spurious wake-ups.  PROVED: the complete wait-for case
-    analysis over the consumer, the parser, the read thread and the workers, the pc correspondence
-    between the threads and the two queue machines, "the parser has returned ⇒ the header promise
-    is set", the wake-up lemmas of C19 lifted to both queues.  ASSUMED (hypotheses): the data
-    invariant `RunData`, the typing `Typed`, and four wait-for invariants — the read thread /
-    parser set every promise before they return (`InqFutReady`, `OutFutReady`), the last thing
-    each producer pushes is the end marker and its consumer stops popping after it (`InqMarker`,
-    `OutqMarker`).  A ranking function (`bounded_progress`) is NOT proved. -/
-theorem no_stuck_state_partial (c : Cfg α) (wf : c.WF) (s : State α) (h : (P c).Reachable s)
-    (hd : Live.RunData c s) (hty : Live.Typed s) (i1 : Live.InqFutReady s) (i2 : Live.InqMarker s)
-    (i4 : Live.OutqMarker s) (i5 : Live.OutFutReady c s)
+/-- `no_stuck_state` (FULL): while an API call (header, read, close, destructor) is in progress
+    some internal step of the pipeline is enabled — in every reachable state, for every fault, stop
+    point, queue bound, pool size, with or without spurious wake-ups.  The proof is the complete
+    wait-for case analysis over the consumer, the parser, the read thread and the workers, from the
+    pc correspondence between the threads and the two queue machines, the wake-up lemmas of C19
+    lifted to both queues, and invariants that are ALL proved for the reachable states (none is a
+    hypothesis): the parser's data invariant `Live.run_data`, the typing of the queues `Live.typed`,
+    "the parser has returned ⇒ the header promise is set" `Live.hdrSet`, the read thread / the
+    parser set every promise before they return (`inq_fut_ready`, `Live.out_fut_ready`), the last
+    thing each producer pushes is the end marker and its consumer stops popping after it
+    (`inq_marker`, `Live.outq_marker`).  `c.WF`: the chunk/blob boundaries are those of the file
+    and a configuration that uses the pool has a worker. -/
+theorem no_stuck_state (c : Cfg α) (wf : c.WF) (s : State α) (h : (P c).Reachable s)
     (h1 : s.cpc ≠ .idle) (h2 : s.cpc ≠ .dead) :
     ∃ e s', e.isCall = false ∧ (P c).Step s e s' :=
-  Pipeline.no_stuck_state_partial c wf s h hd hty i1 i2 i4 i5 h1 h2
+  Pipeline.no_stuck_state c wf s h h1 h2
 
 /-- `bounded_progress`: a ranking function.  Every internal step of the pipeline that is not a
     busy-wait iteration (`isStutter`: a bounded push that sees a full queue, its timed wait, a
     spurious wake-up that finds the predicate false) STRICTLY decreases the natural number
     `rank c s`; busy-wait iterations leave it unchanged; an API call of the client raises it by at
     most 10.  Hence between two API calls every run makes at most `rank` many steps that are not
-    busy-wait iterations; with `no_stuck_state` every API call returns and the destructor joins
-    all threads, PROVIDED busy waits end — they end when the other side moves, which is what the
-    fairness of the OS scheduler and the 10 ms timed wait (assumptions, see the header) give. -/
+    busy-wait iterations; combined with `no_stuck_state` below: `api_call_returns_or_spins`,
+    `api_call_returns`. -/
 theorem bounded_progress (c : Cfg α) (s s' : State α) (e : Ev α) (h : (P c).Reachable s)
     (hst : (P c).Step s e s') :
     (e.isCall = false → isStutter c s e = false → rank c s' < rank c s) ∧
@@ -159,6 +199,127 @@ theorem internal_work_bounded (c : Cfg α) (tr : List (Ev α)) (s s' : State α)
     (hc : ∀ e ∈ tr, e.isCall = false) (hr : (P c).run? s tr 0 = .ok s') :
     (tr.filter fun e => !isStutter c s e).length + rank c s' ≤ rank c s :=
   internal_steps_bounded c tr s s' 0 h hc hr
+
+/-! ## termination -/
+
+/-- `api_call_returns_or_spins` (NO fairness assumption).  Take any MAXIMAL run without further API
+    calls from a reachable state (`Term.MaxRun`: at every position an internal step is taken, or none
+    is enabled and the run stays).  Either it reaches a state in which the call has returned
+    (consumer between calls, or destructed): the first such position `n` exists, and up to it the
+    run has made at most `rank c (σ 0)` steps that are not busy-wait iterations
+    (`Term.work … n + rank c (σ n) ≤ rank c (σ 0)`); or the run is infinite and from some position
+    on EVERY step is a busy-wait iteration (`isStutter`: a bounded push polling a full queue, its
+    10 ms timed wait ending, a wake-up that finds the wait predicate false).  So the ONLY way an API
+    call does not return is an endless busy wait. -/
+theorem api_call_returns_or_spins (c : Cfg α) (wf : c.WF) (σ : Nat → State α) (ε : Nat → Option (Ev α))
+    (hrun : Term.MaxRun c σ ε) (h0 : (P c).Reachable (σ 0)) :
+    (∃ n, ¬ Term.InCall (σ n) ∧ (∀ i, i < n → Term.InCall (σ i)) ∧
+        Term.work c σ ε n + rank c (σ n) ≤ rank c (σ 0)) ∨
+    (∃ N, ∀ i, N ≤ i → ∃ e, ε i = some e ∧ isStutter c (σ i) e = true) :=
+  Term.call_returns_or_spins c wf σ ε hrun h0
+
+/-- `api_call_returns`: under the fairness assumption `Term.Fair` — busy-wait iterations do not
+    repeat for ever — every maximal run without further API calls reaches a state in which the
+    call has returned (header()/read()/close() returned or threw; the destructor finished), after
+    at most `rank c (σ 0)` steps that are not busy-wait iterations. -/
+theorem api_call_returns (c : Cfg α) (wf : c.WF) (σ : Nat → State α) (ε : Nat → Option (Ev α))
+    (hrun : Term.MaxRun c σ ε) (h0 : (P c).Reachable (σ 0)) (hfair : Term.Fair c σ ε) :
+    ∃ n, ¬ Term.InCall (σ n) ∧ (∀ i, i < n → Term.InCall (σ i)) ∧
+      Term.work c σ ε n + rank c (σ n) ≤ rank c (σ 0) :=
+  Term.call_returns c wf σ ε hrun h0 hfair
+
+/-- `busy_wait_never_forced`: the endless busy wait that `api_call_returns_or_spins` leaves open is
+    never FORCED by the pipeline.  In every reachable state in which an API call is in progress a
+    step that is not a busy-wait iteration is enabled at once, or after one busy-wait step (the
+    timed wait of a bounded push() ends and `size()` then sees room): there is a run of at most two
+    internal steps that lowers the rank.  So `Term.Fair` can only fail if the scheduler / the 10 ms
+    timed wait for ever withholds a step that is enabled.  Proof: the wait-for analysis of
+    `no_stuck_state` refined by "who spins on a full queue", with five more invariants (a polling
+    producer ⇒ bounded queue; header unset ⇒ nothing pushed; the future being pushed is neither
+    queued nor held by the consumer — both queues; a completed shutdown() leaves a polling
+    producer an EMPTY queue — both queues). -/
+theorem busy_wait_never_forced (c : Cfg α) (wf : c.WF) (s : State α) (h : (P c).Reachable s)
+    (h1 : s.cpc ≠ .idle) (h2 : s.cpc ≠ .dead) :
+    ∃ tr s', tr.length ≤ 2 ∧ (∀ e ∈ tr, e.isCall = false) ∧ (P c).run? s tr 0 = .ok s' ∧
+      rank c s' < rank c s :=
+  Prog.progress_run c wf s h h1 h2
+
+/-- … and a busy-wait step never DISABLES progress: if a step that is not a busy-wait iteration is
+    enabled before a busy-wait step of any thread, one is enabled after it (the busy-wait step
+    changes only the queue-pc, `sawSize` or wait-set entry of the thread that makes it). -/
+theorem busy_wait_keeps_progress (c : Cfg α) (s s' : State α) (e : Ev α) (hst : (P c).Step s e s')
+    (hs : isStutter c s e = true) (hcan : Prog.Can c s) : Prog.Can c s' :=
+  Sched.can_frame c s s' e hst hs hcan
+
+/-- `api_call_returns_weak_fair`: TERMINATION UNDER WEAK FAIRNESS.  Every maximal run without further
+    API calls that is weakly fair (`Sched.WeakFair`, three conditions of the form "enabled at every
+    position from some position on ⇒ eventually taken": (1) the steps that are not busy-wait
+    iterations, taken together; (2) the end of the 10 ms timed wait of the read thread's push();
+    (3) the same for the parser thread's push()) reaches a state in which the call has returned —
+    header()/read()/close() returned or threw, the destructor finished — after at most
+    `rank c (σ 0)` steps that are not busy-wait iterations. -/
+theorem api_call_returns_weak_fair (c : Cfg α) (wf : c.WF) (σ : Nat → State α) (ε : Nat → Option (Ev α))
+    (hrun : Term.MaxRun c σ ε) (h0 : (P c).Reachable (σ 0)) (hfair : Sched.WeakFair c σ ε) :
+    ∃ n, ¬ Term.InCall (σ n) ∧ (∀ i, i < n → Term.InCall (σ i)) ∧
+      Term.work c σ ε n + rank c (σ n) ≤ rank c (σ 0) :=
+  Sched.call_returns_weak_fair c wf σ ε hrun h0 hfair
+
+/-- A thread never has the choice between a busy-wait iteration and another step: if a thread can make
+    a busy-wait step, every internal step it can make is one (inside the polling loop of push() or
+    blocked in wait_and_pop() it can only make steps of that call, and which one is determined by the
+    queue). -/
+theorem busy_wait_is_not_a_choice (c : Cfg α) (wf : c.WF) (s : State α) (h : (P c).Reachable s)
+    (e1 e2 : Ev α) (s1 s2 : State α) (t : Tid)
+    (hst1 : (P c).Step s e1 s1) (hs1 : isStutter c s e1 = true) (ht1 : e1.thread = t)
+    (hst2 : (P c).Step s e2 s2) (hc2 : e2.isCall = false) (ht2 : e2.thread = t) :
+    isStutter c s e2 = true :=
+  Sched.det c wf s h e1 e2 s1 s2 t hst1 hs1 ht1 hst2 hc2 ht2
+
+/-- `api_call_returns_thread_fair`: TERMINATION UNDER WEAK FAIRNESS OF THE SCHEDULER.  `Sched.ThreadFair`:
+    every thread (consumer, read thread, parser thread, each pool worker; `Ev.thread`) that has an
+    enabled internal step at every position from some position on eventually takes a step — the end
+    of the 10 ms timed wait of Queue::push() is a step of the waiting thread, so "the timed wait
+    returns" is part of it.  Then every maximal run without further API calls reaches a state in
+    which the call has returned — header()/read()/close() returned or threw, the destructor
+    finished — after at most `rank c (σ 0)` steps that are not busy-wait iterations.  For every
+    fault, stop point, queue bound, pool size, with or without spurious wake-ups. -/
+theorem api_call_returns_thread_fair (c : Cfg α) (wf : c.WF) (σ : Nat → State α) (ε : Nat → Option (Ev α))
+    (hrun : Term.MaxRun c σ ε) (h0 : (P c).Reachable (σ 0)) (hfair : Sched.ThreadFair c σ ε) :
+    ∃ n, ¬ Term.InCall (σ n) ∧ (∀ i, i < n → Term.InCall (σ i)) ∧
+      Term.work c σ ε n + rank c (σ n) ≤ rank c (σ 0) :=
+  Sched.call_returns_thread_fair c wf σ ε hrun h0 hfair
+
+/-- finite form: a finite run of internal steps that cannot be extended by an internal step ends in
+    a state in which the call has returned, after at most `rank c s` steps that are not busy-wait
+    iterations. -/
+theorem maximal_finite_run_returns (c : Cfg α) (wf : c.WF) (tr : List (Ev α)) (s s' : State α)
+    (h : (P c).Reachable s) (hc : ∀ e ∈ tr, e.isCall = false) (hr : (P c).run? s tr 0 = .ok s')
+    (hmax : ∀ e s'', e.isCall = false → ¬ (P c).Step s' e s'') :
+    (s'.cpc = .idle ∨ s'.cpc = .dead) ∧ (tr.filter fun e => !isStutter c s e).length + rank c s' ≤ rank c s :=
+  Term.finite_maximal_run_returns c wf tr s s' h hc hr hmax
+
+/-- `destructor_joins_all`: when the destructor has returned (`destroyed`, i.e. the consumer is
+    `dead`) the read thread and the parser thread have returned — they were JOINED: the destructor
+    only gets past `m_read_thread_manager.close()` / `~thread_handler` when they have — and both
+    queues are shut down.  Already inside the destructor: after its close() the read thread has
+    returned, after `~thread_handler` the parser thread has. -/
+theorem destructor_joins_all (c : Cfg α) (s : State α) (h : (P c).Reachable s) :
+    (s.destroyed = true ↔ s.cpc = .dead) ∧
+    (s.destroyed = true → s.rpc = .done ∧ s.ppc = .done ∧ s.inq.inUse = false ∧ s.outq.inUse = false) ∧
+    (Term.afterJoinR s.cpc = true → s.rpc = .done) ∧ (Term.afterJoinP s.cpc = true → s.ppc = .done) := by
+  have hj := Term.joined c s h
+  refine ⟨hj.jd, fun hd => ?_, hj.jr, hj.jp⟩
+  have hc := hj.jd.mp hd
+  have hp := hj.jp (by rw [hc]; rfl)
+  exact ⟨hj.jr (by rw [hc]; rfl), hp, hj.ji hp, hj.jo hc⟩
+
+/-- … and after that nothing of the Reader moves any more: the only steps left are pool workers
+    running blob jobs that were submitted before (the pool is not the Reader's; such a job owns its
+    input and its promise); the consumer stays destructed, both threads stay returned. -/
+theorem after_destructor_only_pool_jobs (c : Cfg α) (s s' : State α) (e : Ev α) (h : (P c).Reachable s)
+    (hd : s.destroyed = true) (hst : (P c).Step s e s') :
+    (∃ w, e = .wStart w ∨ e = .wDone w) ∧ s'.cpc = .dead ∧ s'.rpc = .done ∧ s'.ppc = .done :=
+  Term.dead_only_pool c s s' e h ((Term.joined c s h).jd.mp hd) hst
 
 /-! ## non-vacuity: a run with a fault, evaluated by the kernel -/
 
@@ -209,5 +370,29 @@ example : ∃ s, (P faulty).Reachable s ∧
 /-- the hypothesis `status = error` of `no_data_after_error` is satisfiable -/
 example : ∃ s, (P faulty).Reachable s ∧ decide (s.status = .error) = true :=
   trace_witness faulty (faultyRun.take 36) _ (by decide)
+
+/-- the hypotheses of `api_call_returns`, `api_call_returns_weak_fair` and
+    `api_call_returns_thread_fair` are satisfiable with a call in progress at the start: the run of
+    the first read() above, from the state right after the call (`cRead`) to its return -/
+example : ∃ σ ε, Term.MaxRun faulty σ ε ∧ (P faulty).Reachable (σ 0) ∧ Term.InCall (σ 0) ∧
+    Term.Fair faulty σ ε ∧ Sched.WeakFair faulty σ ε ∧ Sched.ThreadFair faulty σ ε := by
+  have hw := trace_witness faulty (faultyRun.take 26)
+    (fun s : State Nat => decide (s.cpc = .readPop) &&
+      (((faultyRun.drop 26).take 8).foldlM (step? faulty) s).any
+        fun sf : State Nat => decide (sf.rpc = .done) && decide (sf.ppc = .done) && decide (sf.cpc = .idle))
+    (by decide)
+  obtain ⟨s0, hs0, hp0⟩ := hw
+  simp only [Bool.and_eq_true, decide_eq_true_eq, Option.any_eq_true] at hp0
+  obtain ⟨hc0, sf, hrun, ⟨hr, hp⟩, hc⟩ := hp0
+  rw [← Term.runTr_eq_foldlM] at hrun
+  have hsf := runTr_reachable faulty s0 sf _ hs0 hrun
+  have hq := Term.quiescent faulty sf hsf hr hp (.inl hc) rfl
+  obtain ⟨h1, h2, h3⟩ := Term.maxRun_of_trace faulty s0 sf _ hrun (by decide) hq
+  exact ⟨_, _, h1, by rw [h3]; exact hs0, by rw [h3]; simp [Term.InCall, hc0], h2,
+    Sched.weakFair_of_trace faulty s0 sf _ hrun hq, Sched.threadFair_of_trace faulty s0 sf _ hrun hq⟩
+
+/-- `destroyed` is reachable (hypothesis of `after_destructor_only_pool_jobs`) -/
+example : ∃ s, (P faulty).Reachable s ∧ s.destroyed = true :=
+  trace_witness faulty faultyRun _ (by decide)
 
 end Osmium.C07
